@@ -77,7 +77,9 @@ func init() {
 	})
 	registerOp("nmdec", func(a []string) string {
 		mi := nasInfo(a[0])
-		return strings.TrimSpace("ok " + nasShow(mi, nasDecode(mi, aHex(a[1]))))
+		mv := nasDecode(mi, aHex(a[1]))
+		retainDetached(func() string { return nasShow(mi, mv) })
+		return strings.TrimSpace("ok " + nasShow(mi, mv))
 	})
 	registerOp("nmrt", func(a []string) string {
 		mi, mv := nasBuild(a[0], a[1:])
